@@ -177,7 +177,7 @@ func selftest(args []string) int {
 	expect("flatten: untouched record step-conformant", v["base"]["STEPS"], true)
 	expect("flatten: $ref re-pointed to another definition -> C01", v["wrongref"]["C01"], false)
 	expect("flatten: same corruption still passes 'no dangling' (C02)", v["wrongref"]["C02"], true)
-	expect("flatten: phase snapshot dropped -> pipeline shape (C01)", v["dropphase"]["C01"], false)
+	expect("flatten: phase snapshot dropped -> pipeline shape (L1)", v["dropphase"]["L1"], false)
 	expect("flatten: logged import name corrupted -> STEPS", v["wrongname"]["STEPS"], false)
 	expect("flatten: stale reference in passed-in analyzer -> C10", v["stale"]["C10"], false)
 	expect("flatten: unused definition left -> C06", v["leftover"]["C06"], false)
